@@ -4,17 +4,19 @@ from symex.engine import PathEnd
 from props.zmq_u import *
 
 
-def mk_sender(now, msid, table):
+def mk_sender(now, msid, table, balance=False):
     fresh_world(); CLOCK.ms = now
-    s = Z.ZMQSender('tcp://*:5550', 'srv'); s.min_send_id = msid
+    s = Z.ZMQSender('tcp://*:5550', 'srv', balance=balance); s.min_send_id = msid
     for full, c in table.items():
         s.clients[full] = Z.ZMQSender.Client(c['cid'], s.pulls[0], c['t_last'], c['requested'], c['eph'], c['prev_id'])
     return s
 
 
-def noninterference(nsync, neph, planted=None):
+def noninterference(nsync, neph, planted=None, balance=False):
+    balance_mode = balance
     def scenario(e):
         now = e.fresh_int('now', 0); msid = e.fresh_int('min_send_id', 0)
+        balance = bool(e.choice('balance', 2)) if balance_mode == 'choice' else bool(balance_mode)     # a load-balancing publisher (one output here): its per-output readiness must not wait for '?' listeners either
         table = {}
         for j, (cid, eph, must) in enumerate([('c1', 0, True), ('c2', 0, False), ('e1', 1, False)]):
             if not must and not e.choice(f'present{j}', 2): continue
@@ -38,7 +40,7 @@ def noninterference(nsync, neph, planted=None):
         results = []
         for with_eph in (False, True):
             tab = {k: v for k, v in table.items() if with_eph or not v['eph']}
-            s = mk_sender(now, msid, tab)
+            s = mk_sender(now, msid, tab, balance)
             seq = list(sync_reqs)
             if with_eph:
                 seq = []
@@ -145,6 +147,10 @@ def harnesses(tier):
     hs = [
         Harness('c05.send_noninterference', noninterference(2, 1), twin=noninterference(1, 1, planted=True),
                 bounds={'clients': '1-2 sync + 0-1 ephemeral in table, all fields symbolic', 'sync requests': '<=2', 'ephemeral requests': '<=1',
+                        'ephemeral kinds': 'request / new / CLOSE / out-of-band from known or unknown ephemeral client, ids unbounded', 'interleaving position': 'symbolic'},
+                functions=fn, stubs=stubs, assumptions=assume, budget_s=1200),
+        Harness('c05.send_noninterference.balanced', noninterference(1, 1, balance=True) if q else noninterference(2, 1, balance=True), twin=noninterference(1, 1, planted=True, balance=True),
+                bounds={'publisher': 'load-balancing (balance=True), one output', 'clients': '1-2 sync + 0-1 ephemeral in table, all fields symbolic', 'sync requests': '<=1' if q else '<=2', 'ephemeral requests': '<=1',
                         'ephemeral kinds': 'request / new / CLOSE / out-of-band from known or unknown ephemeral client, ids unbounded', 'interleaving position': 'symbolic'},
                 functions=fn, stubs=stubs, assumptions=assume, budget_s=1200),
         Harness('c05.recv_mixed', recv_mixed(2, 12 if q else 14, 1, forms=[FORMS[0][:1], FORMS[1][:3]] if q else FORMS), twin=recv_mixed(2, 12, 1, planted=True),
